@@ -102,7 +102,7 @@ class Info:
 
 class Clause:
     def __init__(self, name, strategy, run, quick=200, thorough=2000,
-                 doc="", exhaustive=None, stateful=None):
+                 doc="", exhaustive=None, stateful=None, steps=30):
         self.name = name
         self.strategy = strategy
         self.run = run
@@ -112,6 +112,7 @@ class Clause:
         # exhaustive: callable(tier, shard, nshards) -> iterator of cases (thorough only unless flagged)
         self.exhaustive = exhaustive
         self.stateful = stateful
+        self.steps = steps
 
 
 class ClauseStats:
@@ -289,3 +290,71 @@ def record_failure(prop, clause, case, known):
                    "message": msg[:2000], "signature": sig}, f, indent=1, sort_keys=True, default=jdefault)
     return {"clause": clause.name, "replay": path, "message": msg[:600],
             "signature": sig, "reproduced": exc is not None}
+
+
+# --------------------------------------------------------------------------
+# stateful (rule-based machine) clauses
+
+def drive_stateful(prop, clause, n_examples, seed, known, shrink_budget_s=120.0):
+    """Drive a clause whose cases are operation histories produced by a Hypothesis
+    RuleBasedStateMachine.  `clause.stateful(hooks)` returns the machine class; the
+    machine calls hooks.done(history, info) at teardown of a successful run and
+    hooks.failed(history, exc) when a step breaks the invariant (returns True when the
+    failure is a listed known finding and must be swallowed).  `clause.run(case)` replays
+    a recorded history ({"history": [...]}) without Hypothesis."""
+    import hypothesis
+    from hypothesis import settings, HealthCheck, Phase
+    from hypothesis.stateful import run_state_machine_as_test
+    stats = ClauseStats(clause.name)
+    t0 = time.time()
+    state = {"first_fail_t": None, "best": None}
+
+    class Hooks:
+        @staticmethod
+        def over_budget():
+            return state["first_fail_t"] is not None and time.time() - state["first_fail_t"] > shrink_budget_s
+
+        @staticmethod
+        def done(history, info):
+            stats.evaluations += 1
+            case = {"history": history}
+            for c in info.classes:
+                stats.classes[c] = stats.classes.get(c, 0) + 1
+            if len(stats.samples) < 2:
+                stats.samples.append(_sample(case))
+            if info.nontrivial:
+                h = case_hash(case)
+                if h not in stats.nt:
+                    stats.nt.add(h)
+                    if len(stats.nt_samples) < 3:
+                        stats.nt_samples.append(_sample(case))
+
+        @staticmethod
+        def failed(history, exc):
+            case = json.loads(canon({"history": history}))
+            for k in known:
+                if k.matches(clause.name, case, exc):
+                    stats.excluded_known[k.id] = stats.excluded_known.get(k.id, 0) + 1
+                    return True
+            if state["first_fail_t"] is None:
+                state["first_fail_t"] = time.time()
+            state["best"] = case
+            return False
+
+    Machine = clause.stateful(Hooks)
+    Machine = hypothesis.seed(seed)(Machine)
+    sett = settings(max_examples=n_examples, stateful_step_count=clause.steps, database=None, deadline=None,
+                    derandomize=False, report_multiple_bugs=False, print_blob=False,
+                    suppress_health_check=list(HealthCheck),
+                    phases=[Phase.generate, Phase.target, Phase.shrink])
+    try:
+        run_state_machine_as_test(Machine, settings=sett)
+    except BaseException as e:
+        if isinstance(e, (KeyboardInterrupt, SystemExit)):
+            raise
+        if state["best"] is None:
+            raise
+    if state["best"] is not None:
+        stats.failures.append(record_failure(prop, clause, state["best"], known))
+    stats.wall = time.time() - t0
+    return stats
